@@ -13,7 +13,7 @@ from props import aspif_ref as R
 
 PID = 'C03'
 HARNESS = 'h_c03'
-HARNESS_EXTRA = ('c01_read.h', 'rec.h')
+HARNESS_EXTRA = ('c01_read.h', 'rec.h', 'reuse.h')
 MODEL_MODULE = 'V.C03.Model'
 SIZES = [4096, 16, 32, 67]
 VARIANTS = {('N%d' % n): ({} if n == 4096 else {'POTASSCO_VERIF_BUF_SIZE': n}) for n in SIZES}
@@ -26,6 +26,18 @@ def variant_of(c):
     return 'N%d' % c[1]
 
 
+def primed(c):
+    """harness/reuse.h: every other case (FNV-1a over the case's integers, bit 17) is read by a reader OBJECT that has read an accepted
+    incremental primer text before (reader reuse; invisible for a correct reader, so neither the model nor the oracle depends on it)"""
+    h = 1469598103934665603
+    for x in c:
+        h = ((h ^ (x & 0xFFFFFFFFFFFFFFFF)) * 1099511628211) & 0xFFFFFFFFFFFFFFFF
+    return bool((h >> 17) & 1)
+
+
+REUSED = 'reused(after reading %r)' % b'asp 1 0 0 incremental\n0\n'
+
+
 def mk(mode, n, text):
     return [mode, n, len(text)] + list(text)
 
@@ -36,7 +48,8 @@ def text_of(c):
 
 def describe(c):
     t = text_of(c)
-    return 'mode=%s N=%d text=%r' % ('complete' if c[0] == 0 else 'incremental', c[1], t[:400] + (b'...' if len(t) > 400 else b''))
+    return 'mode=%s N=%d reader=%s text=%r' % ('complete' if c[0] == 0 else 'incremental', c[1], REUSED if primed(c) else 'fresh',
+                                               t[:400] + (b'...' if len(t) > 400 else b''))
 
 
 def oracle(c, obs):
